@@ -42,7 +42,10 @@ def evaluate(line, res):
     st = d.get("status", "?")
     if st == "dialerror":
         return ("dial-failed", "Transport.Dial returned an error although it does not touch the network: " + d.get("err", ""))
-    for name, who in (("up", "server end (bridge)"), ("down", "client end (SOCKS side)")):
+    dirs = [("up", "server end (bridge)"), ("down", "client end (SOCKS side)")]
+    if "up2.size" in d:
+        dirs += [("up2", "server end (bridge) of the client's second connection"), ("down2", "client end of the client's second connection")]
+    for name, who in dirs:
         size, w, r, mis = int(d[name + ".size"]), int(d[name + ".w"]), int(d[name + ".r"]), int(d[name + ".mis"])
         extra = int(d[name + ".extra"])
         if mis >= 0 or extra > 0:
@@ -60,16 +63,16 @@ def evaluate(line, res):
             return ("foreign-bytes", "%s stream: %d bytes read but only %d written" % (name, r, w))
         if st == "done" and d[name + ".wsha"] != d[name + ".rsha"]:
             return ("foreign-bytes", "%s stream: SHA-256 of the bytes read differs from that of the bytes written" % name)
-    for name in ("up", "down"):
+    for name, _ in dirs:
         for op, what in ((".werr", "Write"), (".rerr", "Read")):
             e = d[name + op]
             if e != "-":
-                end = {("up", ".werr"): "client", ("up", ".rerr"): "server", ("down", ".werr"): "server", ("down", ".rerr"): "client"}[(name, op)]
+                end = {("up", ".werr"): "client", ("up", ".rerr"): "server", ("down", ".werr"): "server", ("down", ".rerr"): "client"}[(name[:-1] if name.endswith("2") else name, op)]
                 return ("error-surfaced-before-close", "%s on the %s end of the %s stream returned `%s` before anyone closed "
                         "(%s of %s bytes transferred)" % (what, end, name, e, d[name + ".r"], d[name + ".size"]))
-    if int(d["accepted"]) > 1:
-        return ("more-than-one-accepted-connection", "the server accepted %s connections for one client session (%s bytes arrived on the "
-                "extra ones): a redial was taken for a new client" % (d["accepted"], d["extrasrv"]))
+    if int(d["accepted"]) > int(d.get("dials", 1)):
+        return ("more-than-one-accepted-connection", "the server accepted %s connections for %s dialled client session(s) (%s bytes arrived on the "
+                "extra ones): a redial was taken for a new client" % (d["accepted"], d.get("dials", 1), d["extrasrv"]))
     if st in ("stalled", "hardlimit"):
         if int(d["live"]) >= 1 and int(d["quiet"]) >= STALL_MS // 2:
             return ("stalled-although-proxy-available", "no byte moved for %s ms although %s proxy process(es) were alive and nothing was "
@@ -84,9 +87,10 @@ def evaluate(line, res):
 
 # ------------------------------------------------------------------ scenario generation
 
-def line_of(sid, seed, up, down, faults, mx=2, proxies=2, stall=STALL_MS, hard=HARD_MS):
-    return "e2e run id=%s seed=%d up=%d down=%d max=%d proxies=%d stall=%d hard=%d faults=%s" % (
-        sid, seed, up, down, mx, proxies, stall, hard, ";".join(faults) if faults else "-")
+def line_of(sid, seed, up, down, faults, mx=2, proxies=2, stall=STALL_MS, hard=HARD_MS, second=None):
+    return "e2e run id=%s seed=%d up=%d down=%d max=%d proxies=%d stall=%d hard=%d %sfaults=%s" % (
+        sid, seed, up, down, mx, proxies, stall, hard, ("second=%d " % second) if second is not None else "",
+        ";".join(faults) if faults else "-")
 
 
 def off(rng, size):
@@ -123,6 +127,15 @@ def gen(ctx):
     add("short-freeze", Q, Q, ["c0:freeze=%d,%d" % (rng.randrange(1000, 200000), rng.randrange(1000, 5000))])
     add("answer-lost", 64 * KIB, 64 * KIB, ["b0:lose"])
     add("asymmetric", rng.randrange(1, 100000), rng.randrange(200000, 600000), ["c0:cutd=%d" % off(rng, 150000)])
+    # no working carrier at all for ~25 s (every proxy killed, the relay refuses): longer than the 20 s staleness timeout and
+    # the smux keep-alive interval, shorter than the server's one-minute retention; then proxies come back and the transfer
+    # must resume on the SAME accepted connection with exact bytes
+    k = rng.randrange(20000, 400000)
+    add("no-carrier-25s", 1024 * KIB, 1024 * KIB, ["c0:blackout=%d,25000" % k, "c0:refuse=%d,25000" % k])
+    # a second connection of the same client (second Dial on the same Transport) once the first has been through a redial:
+    # two sessions side by side, each exact, the server accepts exactly two connections
+    add("second-connection", 512 * KIB, 512 * KIB, ["c0:%s=%d" % (rng.choice(["cutu", "cutd", "stop"]), rng.randrange(1000, 300000))],
+        second=rng.choice([1, 100000, 300000]))
     if ctx.tier != "thorough":
         return S
     # ---- thorough tier
@@ -151,6 +164,12 @@ def gen(ctx):
     add("timed", 4 * M, 4 * M, ["t:%s=%d" % (rng.choice(["kill", "stop", "term"]), rng.randrange(100, 3000)), "t:freeze=%d,3000" % rng.randrange(11000, 13000)])
     add("refuse", Q, Q, ["c0:cutd=%d" % rng.randrange(0, 200000), "c0:refuse=0,15000"])
     add("no-proxy-ever-again", Q, 2 * M, ["c0:extinct=%d" % rng.randrange(1000, 400000)], stall=45000)
+    for _ in range(3):
+        k = rng.randrange(0, 600000)
+        add("no-carrier-25s", rng.choice([Q, M, 2 * M]), rng.choice([Q, M, 2 * M]),
+            ["c0:blackout=%d,%d" % (k, rng.randrange(22000, 40000)), "c0:refuse=%d,%d" % (k, rng.randrange(15000, 30000))], mx=rng.choice([1, 2, 3]))
+        add("second-connection", M, M, ["c0:%s=%d" % (rng.choice(["cutu", "rstd", "kill", "term"]), rng.randrange(0, 300000)),
+                                        "c2:%s=%d" % (rng.choice(["cutu", "cutd", "stop"]), off(rng, 100000))], second=rng.choice([0, 5000, Q, M]), proxies=3)
     add("tiny", 0, 0, ["c0:cutu=14"])
     add("tiny", 1, 1, ["c0:kill=0"])
     kinds = ["cutu", "cutd", "rstu", "rstd", "stop", "kill", "term", "freeze", "pause"]
@@ -218,7 +237,8 @@ def run_all(exe, broker, cases, tier):
 
 
 def summarise(d):
-    return dict(id=d.get("id"), status=d.get("status"), up=int(d.get("up.r", 0)), down=int(d.get("down.r", 0)),
+    return dict(id=d.get("id"), status=d.get("status"), up=int(d.get("up.r", 0)) + int(d.get("up2.r", 0)),
+                down=int(d.get("down.r", 0)) + int(d.get("down2.r", 0)), dials=int(d.get("dials", 1)),
                 carriers=int(d.get("carriers", 0)), relay_conns=int(d.get("conns", 0)), proxies_started=int(d.get("proxies", 0)),
                 accepted=int(d.get("accepted", 0)), faults=d.get("fired", "-"), ms=int(d.get("ms", 0)))
 
